@@ -15,6 +15,7 @@ import (
 	"net/http"
 	"net/http/httptest"
 	"net/url"
+	"strconv"
 	"strings"
 	"sync"
 	"testing"
@@ -25,7 +26,9 @@ import (
 
 	"github.com/ory/fosite"
 	"github.com/ory/fosite/compose"
+	"github.com/ory/fosite/handler/openid"
 	"github.com/ory/fosite/storage"
+	"github.com/ory/fosite/token/jwt"
 )
 
 type HConfig struct {
@@ -42,6 +45,7 @@ type HConfig struct {
 	LifeDev           int64    `json:"life_dev_ms"`
 	ParLife           int64    `json:"par_life_ms"`
 	ParEnforced       bool     `json:"par_enforced"`
+	RawStore          bool     `json:"raw_store,omitempty"` // run on the raw MemoryStore (aliasing included) instead of the by-value adapter
 }
 
 type HClient struct {
@@ -59,6 +63,7 @@ type HTok struct {
 type HOp struct {
 	Kind string `json:"kind"` // authorize redeem refresh revoke introspect advance setclient
 	// authorize
+	RType     string   `json:"response_type,omitempty"` // "" = code, "token", "code token"
 	Client    int      `json:"client,omitempty"`
 	Redirect  string   `json:"redirect,omitempty"`
 	Scopes    []string `json:"scopes,omitempty"`
@@ -221,7 +226,11 @@ func newWorld(t *testing.T, h *HHistory) *world {
 		w.store.Clients[dc.ID] = dc
 	}
 	w.store.Users["peter"] = storage.MemoryUserRelation{Username: "peter", Password: "secret"}
-	w.prov = compose.ComposeAllEnabled(w.conf, w.store, theKey())
+	if h.Cfg.RawStore {
+		w.prov = compose.ComposeAllEnabled(w.conf, w.store, theKey())
+	} else {
+		w.prov = compose.ComposeAllEnabled(w.conf, &valueStore{w.store}, theKey())
+	}
 	return w
 }
 
@@ -324,6 +333,9 @@ func (w *world) exec(op *HOp) HObs {
 	case "authorize", "authorize_par", "push":
 		q := url.Values{}
 		q.Set("response_type", "code")
+		if op.Kind == "authorize" && op.RType != "" {
+			q.Set("response_type", op.RType)
+		}
 		q.Set("state", "state-0123456789")
 		switch op.Kind {
 		case "authorize":
@@ -392,10 +404,18 @@ func (w *world) exec(op *HOp) HObs {
 		for _, a := range op.GAud {
 			ar.GrantAudience(a)
 		}
-		resp, err := w.prov.NewAuthorizeResponse(ctx, ar, &fosite.DefaultSession{Subject: op.Subject})
+		resp, err := w.prov.NewAuthorizeResponse(ctx, ar, &openid.DefaultSession{Subject: op.Subject,
+			Claims: &jwt.IDTokenClaims{Subject: op.Subject}, Headers: &jwt.Headers{}})
 		if err != nil {
 			o.Err = errName(err)
 			return o
+		}
+		if at := resp.GetParameters().Get("access_token"); at != "" {
+			w.issued = append(w.issued, issuedTok{"implicit", at})
+			o.Minted = append(o.Minted, "implicit")
+			if ei, err := strconv.ParseInt(resp.GetParameters().Get("expires_in"), 10, 64); err == nil {
+				o.ExpiresIn = ei
+			}
 		}
 		if code := resp.GetCode(); code != "" {
 			w.issued = append(w.issued, issuedTok{"code", code})
@@ -655,7 +675,7 @@ func (w *world) probe() []*HPayload {
 		var use fosite.TokenUse
 		var tt fosite.TokenType
 		switch it.kind {
-		case "access":
+		case "access", "implicit":
 			use, tt = fosite.AccessToken, fosite.AccessToken
 		case "refresh":
 			use, tt = fosite.RefreshToken, fosite.RefreshToken
@@ -755,7 +775,8 @@ func coqHint(h string) string {
 func coqOp(op *HOp) string {
 	switch op.Kind {
 	case "authorize":
-		return fmt.Sprintf("OAuthorize (Build_authz %d %s %s %s %s %s %s %s %s)", op.Client, Q(op.Redirect), QL(op.Scopes), QL(op.Granted),
+		rt := map[string]string{"": "RCode", "code": "RCode", "token": "RToken", "code token": "RCodeToken"}[op.RType]
+		return fmt.Sprintf("OAuthorize (Build_authz %s %d %s %s %s %s %s %s %s %s)", rt, op.Client, Q(op.Redirect), QL(op.Scopes), QL(op.Granted),
 			coqAurls(op.Aud), coqAurls(op.GAud), Q(op.Subject), Q(op.Challenge), Q(op.Method))
 	case "redeem":
 		return fmt.Sprintf("ORedeem %s %s %s %s %s %s", coqAuth(op.Auth), coqTok(op.Tok), Q(op.Redirect), Q(op.Verifier), Q(s256(op.Verifier)), QL(op.Smuggled))
@@ -770,10 +791,10 @@ func coqOp(op *HOp) string {
 		if op.BodyClient >= 0 {
 			bc = fmt.Sprintf("(Some %d)", op.BodyClient)
 		}
-		return fmt.Sprintf("OPush %s %s %s (Build_authz 0 %s %s [] %s [] \"\" %s %s)", coqAuth(op.Auth), bc, B(op.HasRequestURI), Q(op.Redirect), QL(op.Scopes),
+		return fmt.Sprintf("OPush %s %s %s (Build_authz RCode 0 %s %s [] %s [] \"\" %s %s)", coqAuth(op.Auth), bc, B(op.HasRequestURI), Q(op.Redirect), QL(op.Scopes),
 			coqAurls(op.Aud), Q(op.Challenge), Q(op.Method))
 	case "authorize_par":
-		return fmt.Sprintf("OAuthorizePAR %d %s (Build_authz %d %s %s %s %s %s %s %s %s)", op.Client, coqTok(op.Tok), op.Client, Q(op.Redirect), QL(op.Scopes), QL(op.Granted),
+		return fmt.Sprintf("OAuthorizePAR %d %s (Build_authz RCode %d %s %s %s %s %s %s %s %s)", op.Client, coqTok(op.Tok), op.Client, Q(op.Redirect), QL(op.Scopes), QL(op.Granted),
 			coqAurls(op.Aud), coqAurls(op.GAud), Q(op.Subject), Q(op.Challenge), Q(op.Method))
 	case "device_auth":
 		return fmt.Sprintf("ODeviceAuth %s %d %s %s", coqAuth(op.Auth), op.BodyClient, QL(op.Scopes), coqAurls(op.Aud))
@@ -811,6 +832,8 @@ func coqKind(k string) string {
 		return "KUser"
 	case "par":
 		return "KPar"
+	case "implicit":
+		return "KImplicit"
 	}
 	return "KRefresh"
 }
@@ -860,5 +883,9 @@ func coqHistory(h *HHistory, obs []HObs) string {
 		steps[i] = fmt.Sprintf("(%s, %s, %s)", coqOp(&h.Ops[i]), coqObs(&obs[i]), coqProbeDelta(prev, obs[i].Probes))
 		prev = obs[i].Probes
 	}
-	return fmt.Sprintf("HCase %s %s\n   %s", coqCfg(&h.Cfg), L(cl), "["+strings.Join(steps, ";\n    ")+"]")
+	ctor := "HCase"
+	if h.Cfg.RawStore {
+		ctor = "HCaseRaw"
+	}
+	return fmt.Sprintf("%s %s %s\n   %s", ctor, coqCfg(&h.Cfg), L(cl), "["+strings.Join(steps, ";\n    ")+"]")
 }
